@@ -174,7 +174,8 @@ Definition err_name (e : lerr) : string :=
   | EDisableHttp11 => "DisableHttp11WithHttp11Alpn" | EBufferSize => "BufferSizeTooSmallForH2"
   | EHstsEnabledRequired => "HstsEnabledRequired" | EHstsOnPlainHttp => "HstsOnPlainHttp" | EFileRead => "FileRead"
   | EInvalidHealthCheck => "InvalidHealthCheck" | EDuplicateFrontend => "DuplicateFrontend"
-  | EDuplicateBackend => "DuplicateBackend"
+  | EDuplicateBackend => "DuplicateBackend" | EInvalidCertificate => "InvalidCertificate"
+  | EInvalidSozuIdHeader => "InvalidSozuIdHeader"
   end.
 
 Fixpoint msg_recs (rs : list request) (ds : list dres) : list (list tok) :=
